@@ -1,4 +1,9 @@
-"""Functions for the concurrency scenarios (C09). Explicit versions; bodies announce themselves."""
+"""Functions for the concurrency scenarios (C09, C10 concurrent part). Bodies announce themselves.
+
+g / h carry explicit versions; the others are automatically versioned (so the run-time dependency
+check applies to them) and form a small call tree: top1 -> mid -> leaf, top2 -> mid -> leaf;
+solo_a and solo_b call nothing and are in nobody's dependency closure.
+"""
 import sys
 
 import twosigma.memento as m
@@ -14,3 +19,58 @@ def g(x):
 def h(x):
     sys.audit("vf.body", "h", x)
     return "other-%s" % x
+
+
+@m.memento_function(cluster="vfc")
+def solo_a(x):
+    sys.audit("vf.body", "solo_a", x)
+    return "a-%s" % x
+
+
+@m.memento_function(cluster="vfc")
+def solo_b(x):
+    sys.audit("vf.body", "solo_b", x)
+    return "b-%s" % x
+
+
+@m.memento_function(cluster="vfc")
+def leaf(x):
+    sys.audit("vf.body", "leaf", x)
+    return "leaf-%s" % x
+
+
+@m.memento_function(cluster="vfc")
+def mid(x):
+    sys.audit("vf.body", "mid", x)
+    return "mid(%s)" % leaf(x)
+
+
+@m.memento_function(cluster="vfc")
+def top1(x):
+    sys.audit("vf.body", "top1", x)
+    return "top1(%s)" % mid(x)
+
+
+@m.memento_function(cluster="vfc")
+def top2(x):
+    sys.audit("vf.body", "top2", x)
+    return "top2(%s)" % mid(x)
+
+
+# the reference: what an un-memoized program returns, and the call tree below each call
+CALLS = {"g": (), "h": (), "solo_a": (), "solo_b": (), "leaf": (), "mid": ("leaf",), "top1": ("mid",), "top2": ("mid",)}
+_FMT = {"g": "val-%s", "h": "other-%s", "solo_a": "a-%s", "solo_b": "b-%s", "leaf": "leaf-%s", "mid": "mid(%s)",
+        "top1": "top1(%s)", "top2": "top2(%s)"}
+
+
+def expected(fn, x):
+    inner = CALLS[fn]
+    return _FMT[fn] % (expected(inner[0], x) if inner else x)
+
+
+def closure(fn, x):
+    """All distinct (function, argument) calls made by fn(x), itself included, in call order."""
+    out = [(fn, x)]
+    for c in CALLS[fn]:
+        out += closure(c, x)
+    return out
